@@ -121,6 +121,31 @@ def _smooth(fd, cfg):
     return float(fd["rough"].max()) <= ROUGH_MAX and float(fd["curv"].max()) <= cmax
 
 
+def _junction_in_stencil(mol, method, reach):
+    """Does a displacement of one atom by at most `reach` (the stencil's +-2h) move some orbital pair across
+    0.5 R/a0 |zeta_a - zeta_b| = 0.5, where the overlap code switches from its truncated power series to the closed form?
+    The energy surface has a step of ~1e-7..1e-6 eV there (known finding C08-bintgs-series-jump; C06 mirrors the
+    truncation), so a finite difference across it is not a reference for the force: such stencils are excluded."""
+    from seqm.seqm_functions.constants import a0
+
+    try:
+        m, _ = sp.build([mol], sp.make_params(method))
+        zs = m.parameters["zeta_s"].detach().numpy().reshape(-1)
+        zp = m.parameters["zeta_p"].detach().numpy().reshape(-1)
+    except Exception:  # noqa: BLE001 - the unit itself will report what the package refuses
+        return False
+    x = np.asarray(mol["coords"], float)
+    n = len(mol["species"])
+    for i in range(n):
+        for j in range(i + 1, n):
+            R = float(np.linalg.norm(x[i] - x[j]))
+            for zi in {float(zs[i]), float(zp[i])}:
+                for zj in {float(zs[j]), float(zp[j])}:
+                    if zi > 0 and zj > 0 and zi != zj and abs(R - a0 / abs(zi - zj)) <= reach:
+                        return True
+    return False
+
+
 def _call(fn, sp2):
     """run a package call; SP2 calls run under the deterministic iteration horizon (the SP2 loop has no cap)."""
     if sp2:
@@ -191,7 +216,8 @@ def _run_unit(unit):
         return out
     fd["status"] = "ok"
     fd["nc_any"] = bool(np.any(fd.pop("notconverged")))
-    fd["smooth"] = _smooth(fd, cfg)
+    fd["junction"] = _junction_in_stencil(mol, method, 2.0 * H + 1e-9)
+    fd["smooth"] = _smooth(fd, cfg) and not fd["junction"]
     out["fd"] = fd
     fmax = float(np.abs(fd["F"]).max())
     out["tol"] = {m: _tol(cfg, fmax, m) for m in MODES}
@@ -435,7 +461,9 @@ def judge(chk, unit, res, stats, tilt_cache):
             else:
                 chk.excluded += 1
                 stats["rough_stencil"] += 1
-                chk.case(key, nontrivial=False, outcome="rough-stencil")
+                if fd.get("junction"):
+                    stats["junction_stencil"] = stats.get("junction_stencil", 0) + 1
+                chk.case(key, nontrivial=False, outcome="junction-in-stencil" if fd.get("junction") else "rough-stencil")
             continue
         stats["max_curv"] = max(stats["max_curv"], float(fd["curv"].max()) / (100.0 if cfg["sp2"] else 1.0))
         chk.case(key, nontrivial=True, outcome=f"{mode[:4]}:{L.fmt_err(err)}")
@@ -579,6 +607,7 @@ def run(chk, tier, seed):
     chk.extra["largest_healthy_error_over_tolerance"] = {m: round(v, 4) for m, v in stats["max_ok"].items()}
     chk.extra["largest_healthy_error"] = {m: f"{v[0]:.2e} at {v[1]}" for m, v in stats["worst_ok"].items()}
     chk.extra["largest_healthy_pairwise_over_tolerance"] = round(stats["max_pair"], 4)
+    chk.extra["stencils_excluded_for_a_series_junction_of_the_overlap_code"] = stats.get("junction_stencil", 0)
     chk.extra["largest_accepted_curvature_mismatch_over_limit"] = round(stats["max_curv"] / CURV_MAX, 4)
     chk.extra["tolerance"] = (
         f"autodiff and excited states {ATOL} eV/A, analytical/semi-numerical ground state {ATOL_INTERNAL_FD} eV/A (internal "
@@ -717,7 +746,10 @@ def replay(payload):
             line += f" max|F+dE/dx| {d['err_fd']:.3e} (tol {res['tol'][m]:.1e}) worst atom/comp {d['worst']} singles-confirm {d.get('confirm_err')}"
             if d.get("err_fd_with_floor") is not None:
                 line += f" with-hpp-floor {d['err_fd_with_floor']:.3e}"
-            ok = ok and d["err_fd"] <= res["tol"][m]
+            if res["fd"].get("junction"):
+                line += " [stencil straddles a series junction of the overlap code: the finite difference is no reference here]"
+            else:
+                ok = ok and d["err_fd"] <= res["tol"][m]
         ok = ok and d["pad_absmax"] == 0.0 and d["finite"]
         print(line)
     ms = [m for m, d in res["modes"].items() if d["status"] == "ok"]
